@@ -49,6 +49,7 @@ structure DirInv (c : Nat) (a : SrcV) (b : SinkV) : Prop where
   snkBuf : b.present = false → b.buf = []
   srcEv  : a.present = true → a.ever = true
   snkEv  : b.present = true → b.ever = true
+  goneShut : b.ever = true → b.present = false → b.sawShut = true   -- a handler is dropped only after it shut its socket
 
 /-! ### transitions of the source view -/
 
@@ -359,7 +360,7 @@ theorem DirInv.sinkStep {c : Nat} {a : SrcV} {b b' : SinkV} (h : DirInv c a b) (
       rcases h4 hw with h' | h'
       · exact h2 (h.shutOk hp h')
       · exact h'
-    refine { h with exact := ?_, shutOk := hshut, gone := ?_, dead := ?_ }
+    refine { h with exact := ?_, shutOk := hshut, gone := ?_, dead := ?_, goneShut := fun he hp => h2 (h.goneShut he hp) }
     · rcases h.exact with hs | ⟨lost, he, hl⟩
       · exact Or.inl (h2 hs)
       · exact Or.inr ⟨lost, he, hl⟩
@@ -385,7 +386,7 @@ theorem DirInv.sinkStep {c : Nat} {a : SrcV} {b b' : SinkV} (h : DirInv c a b) (
     have hsaw := h.shutOk hp hsw
     have hev := h.snkEv hp
     refine { h with exact := Or.inl hsaw, shutOk := ?_, conn := ?_, gone := fun _ _ => Or.inl hsaw,
-                    dead := ?_, snkBuf := fun _ => rfl, snkEv := ?_ }
+                    dead := ?_, snkBuf := fun _ => rfl, snkEv := ?_, goneShut := fun _ _ => hsaw }
     · intro h1; cases h1
     · intro h1; rw [hev] at h1; cases h1
     · intro h1; cases h1
@@ -565,7 +566,8 @@ theorem DirInv.connectCreates {c : Nat} {a : SrcV} {b : SinkV} (h : DirInv c a b
     obtain ⟨_, _, h3, _, h5, h6⟩ := cmds_distinct
     simp [Ne.symm h3, Ne.symm h5, Ne.symm h6]
   refine { pre := h.pre, exact := ?_, shutOk := ?_, conn := ?_, fresh := ?_, clean := ?_, eofNM := ?_,
-           gone := ?_, dead := ?_, srcBuf := h.srcBuf, snkBuf := ?_, srcEv := h.srcEv, snkEv := ?_ }
+           gone := ?_, dead := ?_, srcBuf := h.srcBuf, snkBuf := ?_, srcEv := h.srcEv, snkEv := ?_,
+           goneShut := fun _ hp => by cases hp }
   · rcases h.exact with hs | ⟨lost, he, hl⟩
     · exact Or.inl (hmono hs)
     · exact Or.inr ⟨lost, by rw [he, hb0, hdo], hl⟩
